@@ -874,7 +874,7 @@ impl WorldB {
     /// who is paid: mostly somebody of the universe, now and then the proxy itself (or the other proxy) — the
     /// contract's own address is a legal recipient like any other
     fn pick_recipient(&self, rng: &mut Rng) -> String {
-        if rng.chance(1, 18) {
+        if rng.chance(1, if self.cfg.profile == "C16" { 8 } else { 18 }) {
             // the proxy relays the message as submitted: a recipient string it cannot judge is the bank's business
             return match rng.below(3) {
                 0 => "not-an-address".to_string(),
